@@ -95,10 +95,30 @@ class RefOracle(object):
         return box[0]
 
 
-def judge(spec, res, refs):
-    """-> list of violation dicts (may be empty) and list of inconclusive notes."""
+MARGIN = 40
+
+
+def needs_margin(res, refs):
+    """Calls where exactly one of (run, fresh-process reference) ended in RecursionError."""
+    out = []
+    if 'harness_error' in res:
+        return out
+    for idx, (o, ref) in enumerate(zip(res['outcomes'], refs)):
+        if ref is None or o is None or 'harness_error' in ref:
+            continue
+        a = o.get('r') == 'raise' and o.get('e') == 'RecursionError'
+        b = ref.get('r') == 'raise' and ref.get('e') == 'RecursionError'
+        if a != b:
+            out.append((idx, -MARGIN if a else MARGIN))
+    return out
+
+
+def judge(spec, res, refs, margin=None):
+    """-> list of violation dicts (may be empty) and list of inconclusive notes.
+    margin: {call index: outcome of the reference under a recursion limit shifted by +-MARGIN frames}."""
     vios = []
     notes = []
+    margin = margin or {}
     if 'harness_error' in res:
         return [], ['harness_error']
     if res.get('step_cap'):
@@ -108,8 +128,15 @@ def judge(spec, res, refs):
             notes.append('ref_harness_error')
             continue
         if is_resource(o) or is_resource(ref):
-            notes.append('inconclusive_resource')
-            continue
+            if same_outcome(o, ref) or idx not in margin or o.get('e') == 'MemoryError' or ref.get('e') == 'MemoryError':
+                notes.append('inconclusive_resource')
+                continue
+            m = margin[idx]
+            if m is None or 'harness_error' in m or not same_outcome(m, ref):
+                # the reference itself flips within +-MARGIN frames: the input sits at the limit, nothing to conclude
+                notes.append('inconclusive_resource')
+                continue
+            # the reference is stable over the margin, yet this execution ended differently: it ran with another stack budget
         if not same_outcome(o, ref):
             vios.append({'property': 'C11', 'rule': 'I1', 'key': {'rule': 'I1'}, 'call': idx,
                          'got': _brief(o), 'fresh': _brief(ref),
@@ -199,8 +226,16 @@ class ApiCheck(object):
         do_i3 = r3.random() < 0.08 and self.k >= 3
 
         def got_refs(refs):
+            need = needs_margin(res, refs)
+            if need:
+                mrcs = [dict(rcs[i], reclimit_delta=d) for i, d in need]
+                self.oracle.request(mrcs, job['_ref_hs'], lambda outs: finish(refs, dict((i, o) for (i, d), o in zip(need, outs))))
+            else:
+                finish(refs, None)
+
+        def finish(refs, margin):
             self.account(job, res, refs)
-            vios, notes = judge(spec, res, refs)
+            vios, notes = judge(spec, res, refs, margin)
             for n in notes:
                 if n == 'inconclusive_resource':
                     self.stats['inconclusive_resource'] += 1
@@ -384,7 +419,12 @@ class ApiCheck(object):
             return res, [], [], ['harness_error']
         rcs = [apigen.ref_call_for(spec, i) for i in range(len(spec['calls']))]
         refs = self.oracle.sync(rcs, ref_hs)
-        vios, notes = judge(spec, res, refs)
+        need = needs_margin(res, refs)
+        margin = None
+        if need:
+            outs = self.oracle.sync([dict(rcs[i], reclimit_delta=d) for i, d in need], ref_hs)
+            margin = dict((i, o) for (i, d), o in zip(need, outs))
+        vios, notes = judge(spec, res, refs, margin)
         return res, refs, vios, notes
 
     def handle_candidates(self):
